@@ -36,6 +36,14 @@ fn id_at(slot: usize) -> u8 {
     }
 }
 
+struct StepHook;
+impl log4rs::verif_hooks::RotateStep for StepHook {
+    fn step(&self) -> bool {
+        on_step()
+    }
+}
+static STEP_HOOK: StepHook = StepHook;
+
 /// Called by the guarded callback point before every file-system step of `rotate`.
 fn on_step() -> bool {
     unsafe {
@@ -117,7 +125,7 @@ pub fn body_roller(count: u32, witness: bool) {
         R_SLOTS = slot;
         R_COUNT = c;
         IMG_TAKEN = false;
-        log4rs::verif_hooks::ROTATE_STEP = Some(on_step);
+        log4rs::verif_hooks::ROTATE_STEP = Some(&STEP_HOOK);
     }
     let mut pattern = fs::root();
     pattern.push_str("/a.{}");
